@@ -107,6 +107,7 @@ func TestVerif_C13(t *testing.T) {
 			// model
 			m := vfNDNew(sc.init)
 			accepted := 0
+			shrinkSinceWrite := false // an accepted resize made some dimension smaller since the last successful write
 			var problems []string
 			lastIdx := len(cur.Hist) - 1
 			for i, o := range cur.Hist {
@@ -120,6 +121,7 @@ func TestVerif_C13(t *testing.T) {
 						for k := range m.data {
 							m.data[k] = float64(vfPatVal(k, o.Pat)) + 0.5
 						}
+						shrinkSinceWrite = false
 					} else if i == lastIdx {
 						problems = append(problems, "write-of-full-current-extent-rejected")
 					}
@@ -136,6 +138,11 @@ func TestVerif_C13(t *testing.T) {
 								problems = append(problems, "resize-within-max-rejected")
 							}
 						} else {
+							for d := range o.Dims {
+								if o.Dims[d] < m.dims[d] {
+									shrinkSinceWrite = true
+								}
+							}
 							m = m.resize(o.Dims)
 							accepted++
 						}
@@ -180,7 +187,12 @@ func TestVerif_C13(t *testing.T) {
 					if ob.Read == "ERR" {
 						problems = append(problems, "read-error")
 					} else if ob.Read != want {
-						problems = append(problems, vfC13Shape(ob.Read, m))
+						shape := vfC13Shape(ob.Read, m)
+						if shape == "read-stale-data-in-new-space" && !shrinkSinceWrite {
+							// the recorded defect needs a shrink before the grow; stale data without one is another bug
+							shape = "read-nonzero-in-new-space-without-prior-shrink"
+						}
+						problems = append(problems, shape)
 						detail["read"] = ob.Read
 						detail["want"] = want
 					}
